@@ -39,7 +39,7 @@ checks = {
    note="buffer channel size and message limit scaled down for allocation cost only; tags need not be injective (compared with the reference expander)"),
  "C07": dict(cat="exploration", engine="seq", tech=SEQ + " (boundary-menu product, all one-edit neighbours, all short prefix strings; sentinels around every bad record)", ref="DESIGN.md §5 C07",
    text="record level on the real agent core built from the sample configuration (parsing receiver with extraction transforms, byKeySet orchestrator, real LogProcessingWorker handlers run inline via an overlay accessor, both serializers and chunk makers, capture + independent decoding), scaled and shipped limits: (A) full product of per-token boundary menus, (B) all one-edit neighbours (256 substitutions, deletion, 256 insertions per position) of five seed records, (C) all strings over {<,1,>,space,-,a} up to length 7/8 + valid-looking tail; each bad record between two sentinels; oracle: no panic / fatal / hang, sentinels delivered intact and in order, every line counted once, delivered = passed per output",
-   note="record level + stream level (harness/seq_stream: S1, BAD, S2, S3 through the real multiLineReader at the shipped 1:4 limit/buffer proportion, 28 bad kinds, all 1-/2-cut fragmentations x flush ticks; S2 and S3 must come out byte-identical); the listener level (disconnect / re-accept on real sockets) is exercised by the repository's own tests, not here; one known finding (record behind an over-limit line cut by the overflow handling)"),
+   note="record level + stream level (harness/seq_stream: S1, BAD, S2, S3 through the real multiLineReader at the shipped 1:4 limit/buffer proportion, 28 bad kinds, all 1-/2-cut fragmentations x flush ticks; S2 and S3 must come out byte-identical); listener level (harness/seq_listener: real tcplistener on loopback sockets, 14 bad stretches x {close, half-close, reset, cut mid-record} x 4 write fragmentations x {alone, second connection open}, a NEW connection must be accepted and served; real threads, not under the scheduler); one known finding (record behind an over-limit line cut by the overflow handling)"),
  "C08": dict(cat="exploration", engine="seq", tech=SEQ + " (all 0-,1-,2-cut fragmentations x all flush placements against a line-based reference framer)", ref="DESIGN.md §5 C08, Appendix A.1",
    text="real tcplistener.multiLineReader with a scripted read function: every sequence of 2-3 (thorough 2-4) records over six kinds (single line, 1-2 continuation lines, garbage shaped like a head prefix, empty lines) x ALL 0/1/2-cut splits (3-cut for the shortest streams) x ALL 2^(#fragments) flush placements, at scaled sizes (limit 64 / buffer 192) and the shipped sizes, plus over-limit streams; oracle: without flushes identical records for every fragmentation; single-line streams identical under every flush placement; every head exactly once and in order; continuation attached unless a flush fell between",
    note="runConnection's deadline logic itself is not driven (flushes are placed between reads, which is all it can do); over-limit records under the weaker byte-conservation oracle as documented"),
